@@ -167,7 +167,9 @@ CHECKS = {
             "argument of extract / extractSpanTime / % / > / < / removeObsList / +; the positions designated by the "
             "specification are compared with the observations the real operators return (identity, order, feature table, source "
             "untouched). sort() and chronological insertion are recorded on all those tracks, on all sorted tracks to size 12 "
-            "(18) and on random ones to size 40 and judged by acceptance predicates (any order among equal timestamps).",
+            "(18) and on random ones to size 40 and judged by acceptance predicates (any order among equal timestamps). Growth (reported, not "
+            "fatal): Selection.tla (constraints / selectors state machine) and TrackColl.tla (collection of track objects with aliasing), "
+            "every state replayed on the real classes.",
             "TLC 1.8; identity by unique coordinate/feature tags", "5/C04"),
     "C01": ("FeatureTable", "TLA+ state machine of the feature table (implementation-shaped: name->index order + per-observation "
             "lists) checked by TLC; every transition replayed with a real history (spec->code) and random histories "
@@ -184,7 +186,8 @@ CHECKS = {
             "TLC enumerates all 431 465 trees with <= 2 nested operators (+ unary minus, 15 functions) and checks that the "
             "implementation's splitter reads every rendering back as the same tree; the model's value of every tree on 5 "
             "environments (sizes 1-4, zeros, negatives, ties, NaN) is compared with operate()/bracket/assignment/coordinate "
-            "assignment/operator objects; random shapes to depth 6 go through the same model.",
+            "assignment/reflexive assignment (a op= rhs)/operator objects; random shapes to depth 6 go through the same model. Growth "
+            "(reported, not fatal): Query.tla (Track.query) and Operators.tla (the operator objects outside the expression grammar).",
             "TLC 1.8; exact rationals with Undef at arithmetic-undefined points; transcendental functions not claimed; quick "
             "tier replays a seeded 1/40 sample of the enumerated trees (thorough: all)", "5/C02"),
     "C03": ("Calendar", "TLA+ clock model (day chain 1970-2099 x time-of-day lattice) checked exhaustively by TLC; every "
